@@ -80,7 +80,8 @@ def run_cases(ck: Check, n_refine: int, n_storage: int):
     try:
         # ---------------- refinement of candidates
         for k in range(n_refine):
-            ncand = rng.randint(3, 6)
+            # (also more candidates than 4 x workers, not a multiple of it: any batching of the tasks must keep all of them)
+            ncand = 11 if k == 0 else rng.choice([3, 4, 5, 6, 9, 13])
             n = 12 * ncand
             grid = CartesianGrid([[0, n], [0, 14]], [n, 14], periodic=[rng.random() < 0.5, False])
             drops = [DiffuseDroplet(np.array([12 * i + 6 + rng.uniform(-1, 1), 7 + rng.uniform(-1, 1)]), rng.uniform(2.5, 4), rng.uniform(0.8, 1.5)) for i in range(ncand)]
@@ -94,6 +95,15 @@ def run_cases(ck: Check, n_refine: int, n_storage: int):
             ck.case(("refine", k, field.data.tobytes()))
             if em_key(serial) != em_key(again):
                 ck.fail("repeating the serial analysis gives a different result", {"check": "repeat_eq"}, case)
+            # history independence: another analysis with its own solver settings in between (serial or in workers) must not leak
+            coarse = {"least_squares_params": {"max_nfev": 2, "xtol": 1e-2}}
+            ia.locate_droplets(field, refine=True, refine_args=coarse, minimal_radius=minr, num_processes=rng.choice([1, 2]))
+            ia.locate_droplets(field, refine=True, refine_args={"tolerance": 1e-3}, minimal_radius=minr, num_processes=1)
+            again2 = ia.locate_droplets(field, refine=True, minimal_radius=minr, num_processes=1)
+            ck.count("repeat_after_other_settings")
+            if em_key(serial) != em_key(again2):
+                ck.fail("repeating the analysis after an analysis with other solver settings gives a different result (state leaks between calls)",
+                        {"check": "repeat_eq"}, {**case, "in_between": "refine_args with least_squares_params / tolerance"})
             # candidates in the order refine_droplets sees them
             cands = ia.locate_droplets(field, refine=False, minimal_radius=minr)
             for procs, kind in [(2, "reversed"), (3, "random"), ("auto", "rotated"), (rng.choice([2, 3, 5]), "random")]:
@@ -182,7 +192,7 @@ def replay(case: dict):
 
 
 def run(ck: Check):
-    ck.rule = ("refinement of 3-6 candidates and analysis of 3-7 stored frames with num_processes in {1,2,3,5,'auto'} and per-task delays forcing reversed, "
+    ck.rule = ("refinement of 3-13 candidates (incl. more than 4 x workers) and analysis of 3-7 stored frames with num_processes in {1,2,3,5,'auto'} and per-task delays forcing reversed, "
                "rotated and random completion orders (observed orders recorded); bitwise, ordered comparison with the serial run; non-trivial = every case")
     ck.assumptions = ["concurrent.futures.ProcessPoolExecutor.map yields results in submission order (stdlib contract, monitored by the bitwise comparison)",
                       "pickling preserves droplet/field values", "fork start method (Linux default)"]
